@@ -24,6 +24,9 @@ sys.path.insert(0, os.path.join(ROOT, "engine"))
 REPO = os.environ.get("VERIF_REPO", "/repo")
 CACHE = os.path.join(ROOT, ".cache")
 HARNESS = os.path.join(ROOT, "harness")
+# evidence is written to /verif/evidence only when the check runs against /repo itself; a run against another tree
+# (VERIF_REPO: development aid for seeded changes) keeps its output apart
+EVID = os.path.join(ROOT, "evidence") if os.path.realpath(REPO) == "/repo" else os.path.join(CACHE, "evidence-other-tree")
 MOD = "github.com/agglayer/aggkit"
 GOENV = dict(os.environ, GOFLAGS="-mod=mod", GOPROXY="off")
 for _k in ("GOSUMDB", "GOTOOLCHAIN"):
@@ -355,7 +358,7 @@ def check(prop, tier, only=None):
                 o["bounds"] = o["bounds_thorough"]
     scratch = os.path.join(CACHE, "run-%d" % os.getpid())
     os.makedirs(scratch, exist_ok=True)
-    evidence_path = os.path.join(ROOT, "evidence", prop + ".json")
+    evidence_path = os.path.join(EVID, prop + ".json")
     status = {"violations": [], "inconclusive": [], "known": []}
     try:
         irpath, ir_s, log = build_ir(prop, spec.PACKAGES, scratch)
@@ -455,7 +458,7 @@ def check(prop, tier, only=None):
                 # reports at the assertion site, and symbols drawn after it are not in the model (they default to zero natively)
                 reproduced = ("error" not in n) and (
                     (kind == "cex" and x["name"] in (n.get("failures") or [])) or (kind == "panic" and "panic" in n and not n.get("skipped")))
-                rp = os.path.join(ROOT, "evidence", "replays", "%s_%s_%s_%d.json" % (
+                rp = os.path.join(EVID, "replays", "%s_%s_%s_%d.json" % (
                     prop, re.sub(r"\W+", "_", o["name"])[:24], hashlib.sha1((o["name"] + json.dumps(o.get("params", {}))).encode()).hexdigest()[:8], i))
                 os.makedirs(os.path.dirname(rp), exist_ok=True)
                 json.dump({"property": prop, "obligation": o["name"], "harness": o["harness"], "params": o.get("params", {}),
